@@ -9,7 +9,7 @@ def run_dlx(case):
     from solvor.dlx import solve_exact_cover
     M = case["matrix"]
     prim = case["prim"]
-    ncols = len(M[0]) if M else 0
+    ncols = len(M[0]) if M else len(case.get("names") or [])
     names = None
     if case.get("names") is not None:
         names = list(case["names"])         # integer names that are not the positions (1-based, permuted)
@@ -183,6 +183,9 @@ CALLS = [
 # matrices without columns (and possibly without rows): the only exact cover is the empty selection
 DEGENERATE = [{"matrix": m, "prim": [], "calls": CALLS, "named": False, "tuples": False, "pass_empty_secondary": pes}
               for m in ([], [[]], [[], []]) for pes in (False, True)]
+# no rows but declared columns: a primary column cannot be covered, secondary ones need not be
+DEGENERATE += [{"matrix": [], "prim": pr, "calls": CALLS, "names": nm, "tuples": False, "pass_empty_secondary": False}
+               for pr, nm in (([True], ["A"]), ([False], ["A"]), ([True, False], ["A", "B"]), ([False, False], [3, 4]))]
 
 
 def gen_random(rng, n):
